@@ -231,6 +231,8 @@ func mergeValue(av, bv *val.V, f mergeFlags) *val.V {
 		return Merge(av, bv, f)
 	case aSeq && bSeq:
 		switch {
+		case f.onlyNew && !f.deepArr:
+			return av.Copy() // n: a key that exists on the left is left alone
 		case f.appendArr:
 			t := av.Copy()
 			for _, x := range bv.Vals {
@@ -251,9 +253,6 @@ func mergeValue(av, bv *val.V, f mergeFlags) *val.V {
 			}
 			return t
 		default:
-			if f.onlyNew {
-				undef("n with sequences at a common key")
-			}
 			return bv.Copy()
 		}
 	}
